@@ -51,3 +51,7 @@ unsigned long fx2_span_memchr_measured(const char *dest, unsigned long dmax, con
     while (dmax && *dest) { if (!memchr(src, *dest, len)) break; n++; dest++; dmax--; }
     return n;
 }
+
+/* "%.Ns": the presence of a precision is a flag, not a non-zero value */
+unsigned long fx2_prec_value(const char *p, unsigned flags, unsigned long precision) { return strnlen(p, precision ? precision : (unsigned long)-1); }
+unsigned long fx2_prec_flag(const char *p, unsigned flags, unsigned long precision) { return strnlen(p, (flags & 1024u) ? precision : (unsigned long)-1); }
